@@ -171,7 +171,7 @@ func (eng *Engine) checkProperty(prop, tier string) int {
 	xChecked, xConfirmed := 0, 0
 	var xDisagreed []*Obligation
 	if tier == "thorough" {
-		xChecked, xConfirmed, xDisagreed = crossCheck(all, work, 20, seedFromEnv(), *flagPar)
+		xChecked, xConfirmed, xDisagreed = crossCheck(all, work, 6, seedFromEnv(), *flagPar)
 		for _, o := range xDisagreed {
 			o.Status = "unknown" // two solvers contradict each other: not counted as discharged
 		}
@@ -403,7 +403,7 @@ func (eng *Engine) checkProperty(prop, tier string) int {
 			"unmodelled":                unm,
 			"bounded":                   boundedList(execs),
 			"crosscheck": map[string]interface{}{
-				"explanation":  "thorough tier only: every solver-discharged obligation is re-solved by another solver of the portfolio (20 s); confirmed = independent unsat, the rest stayed undecided there; a sat answer would be reported as a violation",
+				"explanation":  "thorough tier only: every solver-discharged obligation is re-solved by the other solvers of the portfolio (6 s each, in parallel); confirmed = independent unsat, the rest stayed undecided there; a sat answer would be reported as a violation",
 				"resolved":     xChecked,
 				"confirmed":    xConfirmed,
 				"disagreement": len(xDisagreed),
